@@ -52,6 +52,9 @@ func loadReplayIndex(verifDir string) []replayEntry {
 	return out
 }
 
+// replayRepo is the tree the replay tests run against (the -repo argument of the check).
+var replayRepo = "/repo"
+
 func tryReplay(prog *Program, prop, fn, name, kind, model, verifDir string) replayResult {
 	for _, e := range loadReplayIndex(verifDir) {
 		if !strings.Contains(fn, e.fn) || (e.kind != "*" && e.kind != kind) || !strings.Contains(name, e.name) {
@@ -59,6 +62,7 @@ func tryReplay(prog *Program, prop, fn, name, kind, model, verifDir string) repl
 		}
 		replayMu.Lock()
 		cmd := exec.Command(filepath.Join(verifDir, "tools", "replay.sh"), e.dir, "^"+e.test+"$")
+		cmd.Env = append(os.Environ(), "VERIF_REPO="+replayRepo)
 		out, _ := cmd.CombinedOutput()
 		replayMu.Unlock()
 		text := string(out)
@@ -119,6 +123,7 @@ func replayRegression(verifDir, prop string) []replayRun {
 			seen[key] = true
 			replayMu.Lock()
 			cmd := exec.Command(filepath.Join(verifDir, "tools", "replay.sh"), dir, "^"+test+"$")
+			cmd.Env = append(os.Environ(), "VERIF_REPO="+replayRepo)
 			o, _ := cmd.CombinedOutput()
 			replayMu.Unlock()
 			text := string(o)
